@@ -100,27 +100,29 @@ from vgi_rpc.utils import IpcValidation, ValidatedReader, new_ipc_stream
 # ---------------------------------------------------------------------------
 
 
-_ACCESS_LOG_ERROR_MESSAGE_LIMIT = 500
-"""Cap for ``error_message`` fields surfaced via the access log.
+_ACCESS_LOG_ERROR_MESSAGE_LIMIT: int | None = None
+"""Cap for ``error_message`` fields surfaced via the access log; ``None`` is no cap.
 
-Long exception messages (typically with embedded tracebacks or repeated
-context) bloat each JSONL record without adding signal — the full traceback
-is logged separately by ``_log_method_error``.  The cap matches the
-historical inline truncation used at every dispatch site.
+``docs/access-log-spec.md`` gives ``error_message`` no length cap and says it
+MUST NOT be truncated: operators rely on the full server-side message, and
+the pipe / socket transports have always logged it whole.  An oversized
+record is the formatter's business (its record-size cap keeps
+``error_message`` and drops the optional fields), not this field's.
 """
 
 
-def _truncate_error_message(exc: BaseException | None, limit: int = _ACCESS_LOG_ERROR_MESSAGE_LIMIT) -> str:
+def _truncate_error_message(exc: BaseException | None, limit: int | None = _ACCESS_LOG_ERROR_MESSAGE_LIMIT) -> str:
     """Render an exception's message for the access-log ``error_message`` field.
 
     Returns ``""`` for ``None`` (the no-error case).  Otherwise returns
-    ``str(exc)`` truncated to ``limit`` characters.  Centralises the
-    historically duplicated ``str(exc)[:500]`` pattern across the unary
-    and stream dispatch shells so the truncation policy is one knob.
+    ``str(exc)``, cut to ``limit`` characters when a limit is given.
+    Centralises the rendering across the unary and stream dispatch shells of
+    the HTTP transport so the policy is one knob.
     """
     if exc is None:
         return ""
-    return str(exc)[:limit]
+    text = str(exc)
+    return text if limit is None else text[:limit]
 
 
 def _log_method_error(protocol_name: str, method_name: str, server_id: str, exc: BaseException) -> str:
